@@ -72,6 +72,14 @@ def run_shard(inobin, fam, seed, n, steps, tag):
     return dict(fam=fam, seed=seed, hist=hist, scripts=scripts, harness_rc=rc, harness_out=out[-2000:], driver_rc=rc2, driver_out=out2)
 
 
+def run_pathlex(inobin, maxlen, seed, tag):
+    """direct sweep: filepath.Clean (what Add / Remove apply to their argument) against PathLex.clean of the model"""
+    hist = os.path.join(WD, "pl-%s.txt" % tag)
+    rc, out = sh("%s -pathlex %d -seed %d -out %s" % (inobin, maxlen, seed, hist), timeout=600, cwd=WD)
+    rc2, out2 = sh("./inodriver %s" % hist, cwd=WD, timeout=600)
+    return dict(fam="pathlex", seed=seed, hist=hist, scripts="", harness_rc=rc, harness_out=out[-2000:], driver_rc=rc2, driver_out=out2)
+
+
 def run_script_file(inobin, script_path, tag, stall_confirmed=False):
     hist = os.path.join(WD, "h-%s.txt" % tag)
     rc, out = sh("%s%s -script %s -out %s" % ("VERIF_STALL_CONFIRMED=1 " if stall_confirmed else "", inobin, script_path, hist), timeout=300, cwd=WD)
@@ -209,8 +217,10 @@ def run_ino_property(run, quick_n=96, thorough_n=2400, steps=45):
     with ThreadPoolExecutor(max_workers=14) as ex:
         futs = [ex.submit(run_script_file, inobin, sp, "%s-%s" % (pid, tag)) for (_, sp, tag) in jobs]
         futs += [ex.submit(run_shard, inobin, *s) for s in shards]
+        plf = ex.submit(run_pathlex, inobin, 7 if run.tier == "quick" else 9, run.seed, pid) if pid in ("C04", "C08") else None
         for f in futs:
             results.append(f.result())
+        plr = plf.result() if plf else None
     stats, allkinds, samples = {}, {}, []
     crash = []
     for r in results:
@@ -221,6 +231,15 @@ def run_ino_property(run, quick_n=96, thorough_n=2400, steps=45):
             allkinds.setdefault(kind, []).append((r, hs, [l for l in lines if l.startswith(kind + " ")]))
         if r["harness_rc"] != 0:
             crash.append(r)
+    if plr:
+        pl_lines, pl_st, _ = parse_driver(plr["driver_out"])
+        stats["pathlex_cases"] = pl_st.get("pathlex_cases", 0)
+        if plr["harness_rc"] != 0 or plr["driver_rc"] != 0 or stats["pathlex_cases"] == 0:
+            run.violation("pathlex-sweep-failed", "the direct sweep of filepath.Clean against PathLex.clean did not run",
+                          {"correspondence": "pathlex", "output": plr["harness_out"] + plr["driver_out"][-1500:]}, nofail=True)
+        elif pl_lines:
+            run.violation("pathlex-clean", "PathLex.clean of the model differs from filepath.Clean: the spelling theorems do not speak about the function the code calls",
+                          {"correspondence": "pathlex", "mismatches": pl_lines[:8]}, nofail=True)
     # a harness crash (e.g. a panic in the reader goroutine) is itself an observation
     for r in crash[:1]:
         run.violation("harness-crash-" + r["fam"], "the library crashed or the harness failed while executing a history (family %s seed %d)" % (r["fam"], r["seed"]),
